@@ -92,6 +92,8 @@ func smtName(n string) string {
 	if ok && n != "" && !(n[0] >= '0' && n[0] <= '9') {
 		return n
 	}
+	// a quoted symbol may not contain | or \ (names built from symbolic indices embed quoted names)
+	n = strings.NewReplacer("|", "'", "\\", "/").Replace(n)
 	return "|" + n + "|"
 }
 
